@@ -55,6 +55,7 @@ type LoopContract struct {
 	Invs     []Clause
 	Modifies []*CExpr
 	HasMod   bool
+	Preserves []*CExpr // cells (possibly allocated by this function) that the loop does not write
 }
 
 type Param struct {
@@ -335,6 +336,9 @@ func parseContractFile(path, pkg string) (*ContractFile, error) {
 				switch {
 				case strings.HasPrefix(rest, "invariant"):
 					lc.Invs = append(lc.Invs, parseClause(strings.TrimSpace(rest[len("invariant"):])))
+				case strings.HasPrefix(rest, "preserves"):
+					lc.HasMod = true
+					lc.Preserves = append(lc.Preserves, parseExprList(strings.TrimSpace(rest[len("preserves"):]))...)
 				case strings.HasPrefix(rest, "modifies"):
 					lc.HasMod = true
 					r := strings.TrimSpace(rest[len("modifies"):])
